@@ -209,6 +209,17 @@ def run_case(case):
     if "only_subgrid" in case:
         sgs = [None if case["only_subgrid"] == "none" else case["only_subgrid"]]
     for sg in sgs:
+        # another Grid of the same file first: a rectangle of the same SHAPE somewhere else (two nested domains of one model grid in one script);
+        # what it computed for its own cells must not be served to the grid that is checked
+        if sg not in (None, [1, -1, 1, -1]):
+            for di, dj in ((1, 0), (-1, 0), (0, 1), (0, -1)):
+                alt = [sg[0] + di, sg[1] + di, sg[2] + dj, sg[3] + dj]
+                if alt[0] >= 1 and alt[2] >= 1 and alt[1] <= case["imax"] - 1 and alt[3] <= case["jmax"] - 1:
+                    try:
+                        Grid(f, subgrid=alt)
+                    except BaseException:
+                        pass
+                    break
         try:
             grid = Grid(f, subgrid=sg)
         except BaseException as e:
